@@ -333,8 +333,8 @@ def run_case(case, rep, env):
 
 
 def plan(tier, seed, scale=1.0):
-    n = int((40 if tier == "quick" else 800) * scale)
-    return [{"n": n, "timeout": 3000} for _ in range(16)]
+    n = int((200 if tier == "quick" else 12000) * scale)
+    return [{"n": n, "timeout": 6000} for _ in range(16)]
 
 
 def run_shard(shard, rep):
